@@ -363,6 +363,21 @@ mk B30; d=$D
 edit "$d/graph/graphalg/dom.go" 's.replace("\t\t\t\tif idom[p] == -1 {\n\t\t\t\t\tcontinue\n\t\t\t\t}\n\t\t\t\tif newIdom == -1 {", "\t\t\t\tif newIdom == -1 {")'
 expect B30 "$d" C19 tie_failed tie_IDom
 
+echo "== H18 harmless: PreOrder marks the node before appending it; PostOrder skips visited successors with continue"
+mk H18; d=$D
+edit "$d/graph/graphalg/order.go" 's.replace("\t\tout = append(out, n)\n\t\tvisited.Mark(n)\n", "\t\tvisited.Mark(n)\n\t\tout = append(out, n)\n").replace("\t\tvisited.Mark(n)\n\t\tfor _, succ := range g.Out(n) {\n\t\t\tif !visited.Test(succ) {\n\t\t\t\tvisit(succ)\n\t\t\t}\n\t\t}\n\t\tout = append(out, n)", "\t\tvisited.Mark(n)\n\t\tfor _, succ := range g.Out(n) {\n\t\t\tif visited.Test(succ) {\n\t\t\t\tcontinue\n\t\t\t}\n\t\t\tvisit(succ)\n\t\t}\n\t\tout = append(out, n)")'
+expect H18 "$d" C19 ok
+
+echo "== B31 breaking: PostOrder records the node before its successors (a pre-order)"
+mk B31; d=$D
+edit "$d/graph/graphalg/order.go" 's.replace("\t\tvisited.Mark(n)\n\t\tfor _, succ := range g.Out(n) {\n\t\t\tif !visited.Test(succ) {\n\t\t\t\tvisit(succ)\n\t\t\t}\n\t\t}\n\t\tout = append(out, n)\n", "\t\tvisited.Mark(n)\n\t\tout = append(out, n)\n\t\tfor _, succ := range g.Out(n) {\n\t\t\tif !visited.Test(succ) {\n\t\t\t\tvisit(succ)\n\t\t\t}\n\t\t}\n")'
+expect B31 "$d" C19 tie_failed tie_PostOrder
+
+echo "== B32 breaking: PreOrder visits successors without testing the marks"
+mk B32; d=$D
+edit "$d/graph/graphalg/order.go" 's.replace("\t\t\tif !visited.Test(succ) {\n\t\t\t\tvisit(succ)\n\t\t\t}\n", "\t\t\tvisit(succ)\n", 1)'
+expect B32 "$d" C19 tie_failed tie_PreOrder
+
 if [ $FULL = 1 ]; then
   echo "== full check on B1: both ties report (correspondence finds a failing input)"
   out=$(VERIF_REPO="$B1" bin/check C13 quick 2>&1); rc=$?
